@@ -8,51 +8,18 @@
 //!   dyn      - `impl<T: DynTreeNode> TreeNode for Arc<T>`
 //! Callbacks are data: a table label -> (directive[, new label, reported flag]); every invocation is
 //! logged.  `ok` is the direct oracle: the documented contract evaluated by a linear scan over the full
-//! f_down/f_up bracket sequence (independent of the Coq model).
-use std::cell::RefCell;
-use std::collections::HashMap;
-use std::marker::PhantomData;
+//! f_down/f_up bracket sequence (independent of the Coq model).  Shared code: ../c42_shared.rs.
 use std::sync::Arc;
 
 use datafusion_common::tree_node::{
-    ConcreteTreeNode, DynTreeNode, Transformed, TreeNode, TreeNodeContainer, TreeNodeRecursion,
-    TreeNodeRewriter, TreeNodeVisitor,
+    ConcreteTreeNode, DynTreeNode, Transformed, TreeNode, TreeNodeContainer,
 };
 use datafusion_common::Result;
 use h_util::{arg, Rng};
 
-use TreeNodeRecursion::{Continue, Jump, Stop};
-type Tnr = TreeNodeRecursion;
-
-// ---------------------------------------------------------------- plain tree description
-#[derive(Clone, Debug, PartialEq)]
-struct S {
-    l: i64,
-    cs: Vec<S>,
-}
-impl S {
-    fn json(&self) -> String {
-        let cs: Vec<String> = self.cs.iter().map(|c| c.json()).collect();
-        format!("[{},[{}]]", self.l, cs.join(","))
-    }
-    fn size(&self) -> usize {
-        1 + self.cs.iter().map(|c| c.size()).sum::<usize>()
-    }
-    fn preorder(&self, out: &mut Vec<i64>) {
-        out.push(self.l);
-        for c in &self.cs {
-            c.preorder(out);
-        }
-    }
-}
-
-trait TT: TreeNode + Sized {
-    const IM: &'static str;
-    fn build(s: &S) -> Self;
-    fn label(&self) -> i64;
-    fn relabel(self, l: i64) -> Self;
-    fn dump(&self) -> S;
-}
+#[path = "../c42_shared.rs"]
+mod shared;
+use shared::*;
 
 // ---------------------------------------------------------------- vec implementation
 #[derive(Debug, Clone, PartialEq)]
@@ -158,486 +125,6 @@ impl TT for Arc<DNode> {
     fn dump(&self) -> S {
         S { l: self.data, cs: self.children.iter().map(|c| c.dump()).collect() }
     }
-}
-
-// ---------------------------------------------------------------- callbacks as data
-type VTab = HashMap<i64, Tnr>;
-type RTab = HashMap<i64, (i64, bool, Tnr)>;
-type Log = Vec<(char, i64)>;
-
-fn vdir(t: &VTab, l: i64) -> Tnr {
-    *t.get(&l).unwrap_or(&Continue)
-}
-fn rdec(t: &RTab, l: i64) -> (i64, bool, Tnr) {
-    *t.get(&l).unwrap_or(&(l, false, Continue))
-}
-fn rcall<T: TT>(ph: char, tab: &RTab, log: &RefCell<Log>, node: T) -> Result<Transformed<T>> {
-    let l = node.label();
-    log.borrow_mut().push((ph, l));
-    let (nl, fl, d) = rdec(tab, l);
-    let node = if nl != l { node.relabel(nl) } else { node };
-    Ok(Transformed::new(node, fl, d))
-}
-
-struct Vis<'a, T> {
-    dt: &'a VTab,
-    ut: &'a VTab,
-    log: Log,
-    _p: PhantomData<T>,
-}
-impl<'n, 'a, T: TT + 'n> TreeNodeVisitor<'n> for Vis<'a, T> {
-    type Node = T;
-    fn f_down(&mut self, node: &'n T) -> Result<Tnr> {
-        self.log.push(('d', node.label()));
-        Ok(vdir(self.dt, node.label()))
-    }
-    fn f_up(&mut self, node: &'n T) -> Result<Tnr> {
-        self.log.push(('u', node.label()));
-        Ok(vdir(self.ut, node.label()))
-    }
-}
-struct Rw<'a, T> {
-    dt: &'a RTab,
-    ut: &'a RTab,
-    log: RefCell<Log>,
-    _p: PhantomData<T>,
-}
-impl<'a, T: TT> TreeNodeRewriter for Rw<'a, T> {
-    type Node = T;
-    fn f_down(&mut self, node: T) -> Result<Transformed<T>> {
-        rcall('d', self.dt, &self.log, node)
-    }
-    fn f_up(&mut self, node: T) -> Result<Transformed<T>> {
-        rcall('u', self.ut, &self.log, node)
-    }
-}
-
-// ---------------------------------------------------------------- JSON helpers
-fn tn(t: Tnr) -> &'static str {
-    match t {
-        Continue => "C",
-        Jump => "J",
-        Stop => "S",
-    }
-}
-fn log_json(l: &Log) -> String {
-    let v: Vec<String> = l.iter().map(|(p, x)| format!("[\"{p}\",{x}]")).collect();
-    format!("[{}]", v.join(","))
-}
-fn vtab_json(t: &VTab) -> String {
-    let mut k: Vec<_> = t.iter().collect();
-    k.sort_by_key(|(a, _)| **a);
-    let v: Vec<String> = k.iter().map(|(a, d)| format!("[{},\"{}\"]", a, tn(**d))).collect();
-    format!("[{}]", v.join(","))
-}
-fn rtab_json(t: &RTab) -> String {
-    let mut k: Vec<_> = t.iter().collect();
-    k.sort_by_key(|(a, _)| **a);
-    let v: Vec<String> = k.iter().map(|(a, (nl, fl, d))| format!("[{},[{},{},\"{}\"]]", a, nl, fl, tn(*d))).collect();
-    format!("[{}]", v.join(","))
-}
-
-// ---------------------------------------------------------------- the contract (direct oracle)
-/// full f_down / f_up bracket sequence of the tree: (is_down, label)
-fn brackets(s: &S, out: &mut Vec<(bool, i64)>) {
-    out.push((true, s.l));
-    for c in &s.cs {
-        brackets(c, out);
-    }
-    out.push((false, s.l));
-}
-#[derive(Clone, Copy, PartialEq, Debug)]
-enum Mode {
-    Run,
-    Skip(usize),
-    UpJ,
-    Halt,
-}
-struct Expect {
-    log: Log,
-    post: Vec<i64>,
-    flag: bool,
-    res: Tnr,
-}
-/// TreeNodeRecursion documentation as a linear scan: Jump in f_down shortcuts the children (f_up of the node
-/// still runs); Jump in f_up bypasses f_up of ancestors until the next f_down; Stop ends everything.
-fn scan(s: &S, fd: &dyn Fn(i64) -> (i64, bool, Tnr), fu: &dyn Fn(i64) -> (i64, bool, Tnr)) -> Expect {
-    let mut ev = vec![];
-    brackets(s, &mut ev);
-    let mut mode = Mode::Run;
-    let mut stk: Vec<i64> = vec![];
-    let mut e = Expect { log: vec![], post: vec![], flag: false, res: Continue };
-    for (down, l) in ev {
-        if down {
-            match mode {
-                Mode::Run | Mode::UpJ => {
-                    let (nl, fl, d) = fd(l);
-                    e.log.push(('d', l));
-                    e.flag |= fl;
-                    stk.push(nl);
-                    mode = match d {
-                        Continue => Mode::Run,
-                        Jump => Mode::Skip(0),
-                        Stop => Mode::Halt,
-                    };
-                }
-                Mode::Skip(d) => {
-                    stk.push(l);
-                    mode = Mode::Skip(d + 1);
-                }
-                Mode::Halt => stk.push(l),
-            }
-        } else {
-            let cur = stk.pop().unwrap();
-            match mode {
-                Mode::Run | Mode::Skip(0) => {
-                    let (nl, fl, d) = fu(cur);
-                    e.log.push(('u', cur));
-                    e.flag |= fl;
-                    e.post.push(nl);
-                    mode = match d {
-                        Continue => Mode::Run,
-                        Jump => Mode::UpJ,
-                        Stop => Mode::Halt,
-                    };
-                }
-                Mode::Skip(d) => {
-                    e.post.push(cur);
-                    mode = Mode::Skip(d - 1);
-                }
-                Mode::UpJ | Mode::Halt => e.post.push(cur),
-            }
-        }
-    }
-    e.res = match mode {
-        Mode::Run | Mode::Skip(_) => Continue,
-        Mode::UpJ => Jump,
-        Mode::Halt => Stop,
-    };
-    e
-}
-/// the tree of shape `s` whose labels in post-order are `post`
-fn with_post(s: &S, post: &mut std::slice::Iter<i64>) -> S {
-    let cs: Vec<S> = s.cs.iter().map(|c| with_post(c, post)).collect();
-    S { l: *post.next().unwrap(), cs }
-}
-/// apply: pre-order, subtree below every non-Continue node pruned, cut after the first Stop
-fn pruned(s: &S, f: &VTab, out: &mut Vec<i64>) {
-    out.push(s.l);
-    if vdir(f, s.l) == Continue {
-        for c in &s.cs {
-            pruned(c, f, out);
-        }
-    }
-}
-
-// ---------------------------------------------------------------- case runners
-fn guarded<F: FnOnce() -> String + std::panic::UnwindSafe>(head: &str, f: F) {
-    match std::panic::catch_unwind(f) {
-        Ok(line) => println!("{line}"),
-        Err(_) => println!("{{{head},\"panic\":true,\"ok\":false}}"),
-    }
-}
-
-fn case_apply<T: TT>(s: &S, tab: &VTab) {
-    let head = format!("\"k\":\"apply\",\"im\":\"{}\",\"t\":{},\"tab\":{}", T::IM, s.json(), vtab_json(tab));
-    guarded(&head.clone(), move || {
-        let t = T::build(s);
-        let mut log: Log = vec![];
-        let r = t
-            .apply(|n| {
-                log.push(('d', n.label()));
-                Ok(vdir(tab, n.label()))
-            })
-            .unwrap();
-        let mut p = vec![];
-        pruned(s, tab, &mut p);
-        let mut exp: Log = vec![];
-        let mut stopped = false;
-        for l in p {
-            exp.push(('d', l));
-            if vdir(tab, l) == Stop {
-                stopped = true;
-                break;
-            }
-        }
-        let ok = exp == log && r == if stopped { Stop } else { Continue } && t.dump() == *s;
-        format!("{{{head},\"log\":{},\"res\":\"{}\",\"ok\":{ok}}}", log_json(&log), tn(r))
-    });
-}
-
-fn case_apply_children<T: TT>(s: &S, tab: &VTab) {
-    let head = format!("\"k\":\"apply_children\",\"im\":\"{}\",\"t\":{},\"tab\":{}", T::IM, s.json(), vtab_json(tab));
-    guarded(&head.clone(), move || {
-        let t = T::build(s);
-        let mut log: Log = vec![];
-        let r = t
-            .apply_children(|n| {
-                log.push(('d', n.label()));
-                Ok(vdir(tab, n.label()))
-            })
-            .unwrap();
-        // f on each child, left to right, until one says Stop; result = last directive (Continue if none)
-        let mut exp: Log = vec![];
-        let mut er = Continue;
-        for c in &s.cs {
-            exp.push(('d', c.l));
-            er = vdir(tab, c.l);
-            if er == Stop {
-                break;
-            }
-        }
-        let ok = exp == log && r == er;
-        format!("{{{head},\"log\":{},\"res\":\"{}\",\"ok\":{ok}}}", log_json(&log), tn(r))
-    });
-}
-
-fn case_exists<T: TT>(s: &S, hits: &[i64]) {
-    let hj: Vec<String> = hits.iter().map(|h| h.to_string()).collect();
-    let head = format!("\"k\":\"exists\",\"im\":\"{}\",\"t\":{},\"hits\":[{}]", T::IM, s.json(), hj.join(","));
-    guarded(&head.clone(), move || {
-        let t = T::build(s);
-        let mut log: Log = vec![];
-        let r = t
-            .exists(|n| {
-                log.push(('d', n.label()));
-                Ok(hits.contains(&n.label()))
-            })
-            .unwrap();
-        let mut p = vec![];
-        s.preorder(&mut p);
-        let mut exp: Log = vec![];
-        let mut found = false;
-        for l in p {
-            exp.push(('d', l));
-            if hits.contains(&l) {
-                found = true;
-                break;
-            }
-        }
-        let ok = exp == log && r == found;
-        format!("{{{head},\"log\":{},\"res\":{r},\"ok\":{ok}}}", log_json(&log))
-    });
-}
-
-fn case_visit<T: TT>(s: &S, dt: &VTab, ut: &VTab) {
-    let head = format!(
-        "\"k\":\"visit\",\"im\":\"{}\",\"t\":{},\"dtab\":{},\"utab\":{}",
-        T::IM,
-        s.json(),
-        vtab_json(dt),
-        vtab_json(ut)
-    );
-    guarded(&head.clone(), move || {
-        let t = T::build(s);
-        let mut v = Vis::<T> { dt, ut, log: vec![], _p: PhantomData };
-        let r = t.visit(&mut v).unwrap();
-        let e = scan(s, &|l| (l, false, vdir(dt, l)), &|l| (l, false, vdir(ut, l)));
-        let ok = e.log == v.log && e.res == r && t.dump() == *s;
-        format!("{{{head},\"log\":{},\"res\":\"{}\",\"ok\":{ok}}}", log_json(&v.log), tn(r))
-    });
-}
-
-fn honest(t: &RTab) -> bool {
-    t.iter().all(|(l, (nl, fl, _))| nl == l || *fl)
-}
-
-/// m in down | up | up_syn (fn transform) | down_up | rewrite | map_children
-fn case_trans<T: TT>(m: &str, s: &S, dt: &RTab, ut: &RTab) {
-    let head = format!(
-        "\"k\":\"trans\",\"m\":\"{m}\",\"im\":\"{}\",\"t\":{},\"dtab\":{},\"utab\":{}",
-        T::IM,
-        s.json(),
-        rtab_json(dt),
-        rtab_json(ut)
-    );
-    let m = m.to_string();
-    guarded(&head.clone(), move || {
-        let t = T::build(s);
-        let log = RefCell::new(vec![]);
-        let id = |l: i64| (l, false, Continue);
-        let (res, exp): (Transformed<T>, Expect) = match m.as_str() {
-            "down" => {
-                let r = t.transform_down(|n| rcall('d', dt, &log, n)).unwrap();
-                let mut e = scan(s, &|l| rdec(dt, l), &id);
-                e.log.retain(|(p, _)| *p == 'd');
-                (r, e)
-            }
-            "up" => {
-                let r = t.transform_up(|n| rcall('u', ut, &log, n)).unwrap();
-                let mut e = scan(s, &id, &|l| rdec(ut, l));
-                e.log.retain(|(p, _)| *p == 'u');
-                (r, e)
-            }
-            "up_syn" => {
-                let r = t.transform(|n| rcall('u', ut, &log, n)).unwrap();
-                let mut e = scan(s, &id, &|l| rdec(ut, l));
-                e.log.retain(|(p, _)| *p == 'u');
-                (r, e)
-            }
-            "down_up" => {
-                let r = t.transform_down_up(|n| rcall('d', dt, &log, n), |n| rcall('u', ut, &log, n)).unwrap();
-                (r, scan(s, &|l| rdec(dt, l), &|l| rdec(ut, l)))
-            }
-            "rewrite" => {
-                let mut rw = Rw::<T> { dt, ut, log: RefCell::new(vec![]), _p: PhantomData };
-                let r = t.rewrite(&mut rw).unwrap();
-                *log.borrow_mut() = rw.log.into_inner();
-                (r, scan(s, &|l| rdec(dt, l), &|l| rdec(ut, l)))
-            }
-            "map_children" => {
-                let r = t.map_children(|n| rcall('d', dt, &log, n)).unwrap();
-                // f on each child left to right until one says Stop; flag = OR; tnr = last (Continue if none)
-                let mut e = Expect { log: vec![], post: vec![], flag: false, res: Continue };
-                let mut stopped = false;
-                let mut cs = vec![];
-                for c in &s.cs {
-                    if stopped {
-                        cs.push(c.clone());
-                        continue;
-                    }
-                    let (nl, fl, d) = rdec(dt, c.l);
-                    e.log.push(('d', c.l));
-                    e.flag |= fl;
-                    e.res = d;
-                    stopped = d == Stop;
-                    cs.push(S { l: nl, cs: c.cs.clone() });
-                }
-                let mut post = vec![];
-                fn po(s: &S, o: &mut Vec<i64>) {
-                    for c in &s.cs {
-                        po(c, o);
-                    }
-                    o.push(s.l);
-                }
-                po(&S { l: s.l, cs }, &mut post);
-                e.post = post;
-                (r, e)
-            }
-            _ => unreachable!(),
-        };
-        let log = log.into_inner();
-        let out = res.data.dump();
-        let want = with_post(s, &mut exp.post.iter());
-        // Arc<dyn> map_children keeps the old node when no child *reported* a change, so a callback that
-        // changes a label without reporting it is (by design) lost there: the tree is only checked by the
-        // oracle for honest callbacks on `dyn` (the Coq model covers the dishonest case exactly).
-        let tree_checked = T::IM != "dyn" || (honest(dt) && honest(ut));
-        let ok = exp.log == log && exp.flag == res.transformed && exp.res == res.tnr && (!tree_checked || out == want);
-        format!(
-            "{{{head},\"log\":{},\"out\":{},\"flag\":{},\"res\":\"{}\",\"ok\":{ok}}}",
-            log_json(&log),
-            out.json(),
-            res.transformed,
-            tn(res.tnr)
-        )
-    });
-}
-
-// ---------------------------------------------------------------- generators
-/// all ordered forests with n nodes (shapes only)
-fn forests(n: usize) -> Vec<Vec<S>> {
-    if n == 0 {
-        return vec![vec![]];
-    }
-    let mut out = vec![];
-    for first in 1..=n {
-        for t in trees(first) {
-            for rest in forests(n - first) {
-                let mut f = vec![t.clone()];
-                f.extend(rest);
-                out.push(f);
-            }
-        }
-    }
-    out
-}
-fn trees(n: usize) -> Vec<S> {
-    forests(n - 1).into_iter().map(|cs| S { l: 0, cs }).collect()
-}
-fn number(s: &mut S, next: &mut i64) {
-    s.l = *next;
-    *next += 1;
-    for c in &mut s.cs {
-        number(c, next);
-    }
-}
-fn random_tree(rng: &mut Rng, n: usize) -> S {
-    // random recursive tree with a shape bias chosen per tree: 0 uniform parent, 1 deep (last node), 2 wide (root)
-    let bias = rng.below(4);
-    let mut parent = vec![0usize; n];
-    for i in 1..n {
-        parent[i] = match bias {
-            1 if rng.chance(3, 4) => i - 1,
-            2 if rng.chance(3, 4) => 0,
-            _ => rng.below(i as u64) as usize,
-        };
-    }
-    fn build(i: usize, parent: &[usize]) -> S {
-        let cs = (i + 1..parent.len()).filter(|j| parent[*j] == i).map(|j| build(j, parent)).collect();
-        S { l: 0, cs }
-    }
-    let mut s = build(0, &parent);
-    let mut k = 1;
-    number(&mut s, &mut k);
-    if rng.chance(1, 5) {
-        // duplicate labels: callbacks then decide the same for several nodes
-        fn dup(s: &mut S, rng: &mut Rng) {
-            s.l = 1 + rng.below(3) as i64;
-            for c in &mut s.cs {
-                dup(c, rng);
-            }
-        }
-        dup(&mut s, rng);
-    }
-    s
-}
-fn rand_dir(rng: &mut Rng, style: u64) -> Tnr {
-    match style {
-        0 => Continue,
-        1 => *rng.pick(&[Continue, Jump, Stop]),
-        2 => *rng.pick(&[Continue, Continue, Continue, Jump]),
-        _ => *rng.pick(&[Continue, Continue, Continue, Continue, Continue, Continue, Jump, Jump, Stop]),
-    }
-}
-fn rand_vtab(rng: &mut Rng, labels: &[i64]) -> VTab {
-    let style = rng.below(5);
-    let mut t = VTab::new();
-    for l in labels {
-        let d = rand_dir(rng, style);
-        if d != Continue || rng.chance(1, 4) {
-            t.insert(*l, d);
-        }
-    }
-    t
-}
-/// `honest`: the flag is reported whenever the label changes
-fn rand_rtab(rng: &mut Rng, labels: &[i64], honest: bool) -> RTab {
-    let style = rng.below(5);
-    let change = rng.below(3); // 0 never, 1 sometimes, 2 always
-    let mut t = RTab::new();
-    for l in labels {
-        let d = rand_dir(rng, style);
-        let ch = match change {
-            0 => false,
-            1 => rng.chance(1, 2),
-            _ => true,
-        };
-        // new labels are either fresh (l+100) or collide with an existing label (so that f_up is looked up
-        // under a label that has its own entry)
-        let nl = if ch { if rng.chance(1, 3) { *rng.pick(labels) } else { l + 100 } } else { *l };
-        let fl = if honest { nl != *l || rng.chance(1, 6) } else { rng.chance(1, 2) };
-        t.insert(*l, (nl, fl, d));
-    }
-    // decisions for the labels f_down may have produced (seen by f_up)
-    for l in labels {
-        if rng.chance(1, 2) {
-            let d = rand_dir(rng, style);
-            let nl = if change > 0 && rng.chance(1, 2) { l + 200 } else { l + 100 };
-            t.insert(l + 100, (nl, nl != l + 100, d));
-        }
-    }
-    t
 }
 
 fn repo_test_tree() -> S {
@@ -801,5 +288,4 @@ fn main() {
             _ => case_trans::<Arc<DNode>>(m2, &s, &rd, &ru),
         }
     }
-    let _ = S::size;
 }
